@@ -193,8 +193,25 @@ fn sized_call<M: for<'a> Deserialize<'a> + std::fmt::Debug>(size: usize, valid: 
     }
     Frame { bytes: s, expect }
 }
-/// `{` followed by garbage.
+/// `{` followed by garbage.  Salts from 100 on ask for frames that are valid UTF-8 but made of
+/// three-byte characters almost throughout (at alignment `salt % 3`, so that for any byte offset
+/// some alignment puts a character across it): 100..=102 unbalanced JSON, 103..=105 a JSON array
+/// holding one long string (well-formed, but neither a call nor a reply).
 fn malformed(size: usize, salt: u8) -> Vec<u8> {
+    if salt >= 100 && size >= 12 {
+        let a = (salt % 3) as usize;
+        let (head, tail): (&str, &str) = if salt >= 103 { ("[\"", "\"]") } else { ("{", "") };
+        let mut s = String::from(head);
+        s.push_str(&"x".repeat(a));
+        while s.len() + 3 + tail.len() <= size {
+            s.push('\u{20ac}');
+        }
+        while s.len() + tail.len() < size {
+            s.push('y');
+        }
+        s.push_str(tail);
+        return s.into_bytes();
+    }
     let mut v = vec![b'{'];
     v.extend(garbage(size - 1, salt));
     v
@@ -364,9 +381,13 @@ impl Harness for Framing {
             }
             Mode::Growth { near_only } => {
                 let size = GROWTH_SIZES[cx.choose(GROWTH_SIZES.len(), "big:size")];
-                let valid = cx.choose(2, "big:valid|malformed") == 0;
+                let variant = cx.choose(8, "big:valid|malformed|multibyte-malformed*3|multibyte-wrong-shape*3");
+                let valid = variant == 0;
                 let place = cx.choose(3, "big:alone|after-tiny|before-tiny");
-                let big = (t.sized)(size, valid, 3);
+                let big = (t.sized)(size, valid, if variant <= 1 { 3 } else { 98 + variant as u8 });
+                if variant >= 2 && size >= 250 {
+                    cx.goal("long-undecodable-frame-of-multibyte-characters");
+                }
                 let tiny = t.sigma[0].clone();
                 match place {
                     0 => frames.push(big),
@@ -534,7 +555,7 @@ fn phases(tier: Tier, cancel: bool) -> Vec<(String, usize, Mode, u32)> {
 fn run(prop: &str, tier: Tier, cancel: bool) -> i32 {
     let mut rep = Report::new(prop, tier.name());
     rep.rule = if !cancel {
-        "DFS by re-execution over: frame sequence (alphabet^<=3 per target type; one frame of every growth-boundary size alone/after/before a tiny frame; bursts of 2..40 tiny frames; 2..3 frames of 100..300 bytes each, so that the buffer grows while earlier frames are still in it, with reads ending early next to growth steps and frame boundaries) x what every transport read returns (every partition of the byte stream for short streams, every cut set up to the deviation budget otherwise). An execution is one complete receive history on a fresh Connection; outcomes are distinct (result sequence, number of reads)".to_string()
+        "DFS by re-execution over: frame sequence (alphabet^<=3 per target type; one frame of every growth-boundary size alone/after/before a tiny frame - valid, garbage bytes, or undecodable but valid UTF-8 made of three-byte characters at each of the three alignments (unbalanced JSON / a JSON array); bursts of 2..40 tiny frames; 2..3 frames of 100..300 bytes each, so that the buffer grows while earlier frames are still in it, with reads ending early next to growth steps and frame boundaries) x what every transport read returns (every partition of the byte stream for short streams, every cut set up to the deviation budget otherwise). An execution is one complete receive history on a fresh Connection; outcomes are distinct (result sequence, number of reads)".to_string()
     } else {
         "as C01, plus at every transport read poll the choice {ready, pending} and after every pending the choice {re-poll the same receive future, drop it and create a new one}; every subset of suspension points is cancelled for the short streams".to_string()
     };
@@ -550,6 +571,7 @@ fn run(prop: &str, tier: Tier, cancel: bool) -> i32 {
         rep.require_goal("burst");
     }
     rep.require_goal("frame-crosses-growth-step");
+    rep.require_goal("long-undecodable-frame-of-multibyte-characters");
     rep.require_goal("buffer-grows-behind-an-earlier-frame");
     if cancel {
         rep.require_goal("receive-cancelled");
